@@ -66,6 +66,60 @@ func checkC07(c *core.Ctx) {
 			}
 		}
 	}
+	// two graphs expanding the SAME tracked operand to the same shape, both
+	// built before either is back-propagated: the second delivery must not
+	// contain the first one's upstream gradient again
+	seqTargets := enum.Shapes(2, []int{1, 2, 3})
+	if c.Thorough() {
+		seqTargets = enum.Shapes(3, []int{1, 2, 3})
+	}
+	for _, t := range seqTargets {
+		for _, pr := range enum.BroadcastPairs(t) {
+			for _, kinds := range [][2]string{{"Add", "Mul"}, {"Mul", "Mul"}, {"Sub", "Div"}, {"Add", "Add"}} {
+				for swap := 0; swap < 2; swap++ {
+					t, pr, kinds, swap := t, pr, kinds, swap
+					exp := ref.Size(pr[0]) != ref.Size(t)
+					c.Case(fmt.Sprintf("twographs/%s+%s/%v,%v/s%d", kinds[0], kinds[1], pr[0], pr[1], swap), exp, func() core.Verdict {
+						a := enum.Generic(pr[0], 221, 0.5, 3, true)
+						b1 := enum.Generic(pr[1], 222, 0.5, 3, true)
+						b2 := enum.Generic(pr[1], 223, 0.5, 3, true)
+						p := &ref.Program{Leaves: []*ref.T{a, b1, b2}, Tracked: []bool{true, false, false}}
+						in1, in2 := []int{0, 1}, []int{0, 2}
+						if swap == 1 {
+							in1, in2 = []int{1, 0}, []int{2, 0}
+						}
+						p.Nodes = []ref.Node{{Op: ref.Op{K: kinds[0]}, In: in1}, {Op: ref.Op{K: kinds[1]}, In: in2}}
+						q, r1 := withWeighting(p, 3, 17)
+						// second weighting on the second graph
+						q2, r2 := withWeighting(q, 5, 19) // node ids shift by one for every added leaf
+						_ = r1
+						v := seqGradCase(q2, []int{r2 - 1, r2}, gradOpts{allowKF: true})
+						if !v.OK && !v.Skip {
+							v.Detail = describeProgram(q2) + " :: " + v.Detail
+						}
+						return v
+					})
+				}
+			}
+			// explicit Broadcast twice
+			t, pr := t, pr
+			c.Case(fmt.Sprintf("twographs/Broadcast/%v->%v", pr[0], t), ref.Size(pr[0]) != ref.Size(t), func() core.Verdict {
+				a := enum.Generic(pr[0], 224, 0.5, 3, true)
+				w := enum.Weights(t, 225)
+				p := &ref.Program{Leaves: []*ref.T{a, w}, Tracked: []bool{true, false}}
+				p.Nodes = []ref.Node{
+					{Op: ref.Op{K: "Broadcast", Shape: t}, In: []int{0}},
+					{Op: ref.Op{K: "Broadcast", Shape: t}, In: []int{0}},
+					{Op: ref.Op{K: "Mul"}, In: []int{3, 1}},
+				}
+				v := seqGradCase(p, []int{2, 4}, gradOpts{allowKF: true})
+				if !v.OK && !v.Skip {
+					v.Detail = describeProgram(p) + " :: " + v.Detail
+				}
+				return v
+			})
+		}
+	}
 	// Dot and MatMul: every broadcast-compatible batch pair
 	var batches [][]int
 	if c.Thorough() {
